@@ -158,7 +158,14 @@ def run_history(ctx, tr, length):
         # (a scattering vector exactly along the reference vector is a numerical singularity of the solver: the rebuilt calculator differs from the
         #  original in the last bit of the degree/radian conversions, which is enough to change the substituted reference direction; such queries are
         #  compared with their own repetitions and by the state snapshot only)
-        if k not in ("str", "gp-along") and ans != ref_c:
+        singular = False
+        if key is not None and key[0] == "gp" and hc.ubcalc.UB is not None:
+            # the same singularity reached by construction: the requested scattering vector (anti)parallel to the reference or the surface vector
+            qv = np.asarray(hc.ubcalc.UB, float) @ np.asarray(key[1], float)
+            for vv in PL.vectors(hc.ubcalc):
+                if vv is not None and np.linalg.norm(qv) > 0 and np.linalg.norm(np.cross(qv / np.linalg.norm(qv), np.asarray(vv, float) / np.linalg.norm(vv))) < 1e-6:
+                    singular = True
+        if k not in ("str", "gp-along") and not singular and ans != ref_c:
             complaints.append(f"query #{step} ({k}, {key[0]}) answered differently from a freshly built calculator in the same state "
                               f"(after {step} earlier queries): {str(ans)[:140]} vs {str(ref_c)[:140]}")
             break
